@@ -111,8 +111,20 @@ func run(j *job) (res result) {
 		doc = b
 	}
 	if j.Prior != "" {
-		if err := json.Unmarshal([]byte(j.Prior), dst); err != nil {
-			res.PriorErr = sp(err.Error())
+		var perr error
+		func() {
+			defer func() {
+				if r := recover(); r != nil {
+					res.Panic = sp(fmt.Sprintf("while decoding the prior document: %v\n%s", r, shortStack()))
+				}
+			}()
+			perr = json.Unmarshal([]byte(j.Prior), dst)
+		}()
+		if res.Panic != nil {
+			return
+		}
+		if perr != nil {
+			res.PriorErr = sp(perr.Error())
 			return
 		}
 	}
